@@ -97,6 +97,11 @@ type Interp struct {
 	curInstr  ssa.Instruction
 	regions   map[*ssa.If]*regionInfo
 	skipModel string
+	held      map[*Value]int
+	watch     map[*Value]watchInfo
+	inOnce    map[*Value]int
+	onceDone  map[*Value]bool
+	accessSeen map[string]bool
 	cborStore map[*ByteObj]Value
 	opaqueLens map[int32]bool
 	axiomSeen map[*Term]bool
@@ -379,6 +384,9 @@ func (it *Interp) load(p Value) Value {
 		if x.P == nil {
 			it.rtPanic("invalid memory address or nil pointer dereference")
 		}
+		if len(it.watch) > 0 {
+			it.checkAccess(x.P, false)
+		}
 		return it.copyVal(*x.P)
 	case BytePtr:
 		return it.objAt(x.Obj, x.Idx)
@@ -393,6 +401,9 @@ func (it *Interp) store(p Value, v Value) {
 	case Ptr:
 		if x.P == nil {
 			it.rtPanic("invalid memory address or nil pointer dereference")
+		}
+		if len(it.watch) > 0 {
+			it.checkAccess(x.P, true)
 		}
 		it.storeSlot(x.P, v)
 		return
